@@ -66,6 +66,14 @@ fn ws_variants(text: &str, rng: &mut Rng, thorough: bool) -> Vec<String> {
     v
 }
 
+/// C13 on raw strings (well-formed or not): whitespace anywhere never changes the outcome
+pub fn whitespace_only(out: &mut Out, e: &str, text: &str, outs: &[(Val, Outcome)], rng: &mut Rng, thorough: bool) {
+    let ctx = json!({"raw_string": text});
+    for t in ws_variants(text, rng, thorough && text.chars().count() <= 6) {
+        for (ph, oa) in outs { pair(out, "meta_ws", e, text, &t, ph, oa, None, &ctx); }
+    }
+}
+
 fn matching(kinds: &[String], open: usize) -> Option<usize> {
     let mut d = 0i32;
     for i in open..kinds.len() {
